@@ -228,7 +228,7 @@ def extra_checks(ctx, e, A, M):
         if ndet is None or ndet >= diag + 2:
             for v in range(nview):
                 cs = M[v * ny:(v + 1) * ny].sum(axis=0)
-                if np.abs(cs - 1.0).max() > 1e-9:
+                if not (np.abs(cs - 1.0).max() <= 1e-9):
                     ctx.violation(cls, "total mass is not conserved in a view although the detector covers the shadow",
                                   {**key, "view": v}, expected="column sums 1", observed=cs.tolist(), oracle="xray_mass_conservation")
         if c.get("dx") == 1.0 and list(angles) == [0.0, np.pi / 2] and ndet is not None \
@@ -242,7 +242,7 @@ def extra_checks(ctx, e, A, M):
                 i, j = divmod(k, shp[1])
                 ref[(ndet - shp[0]) // 2 + i, k] = 1.0
                 ref[ndet + (ndet - shp[1]) // 2 + j, k] = 1.0
-            if np.abs(ref - M).max() > 1e-9:
+            if not (np.abs(ref - M).max() <= 1e-9):
                 r, k = np.unravel_index(np.argmax(np.abs(ref - M)), M.shape)
                 ctx.violation(cls, "projection at angles 0 / pi/2 is not the (centred) row / column sums",
                               {**key, "entry": [int(r), int(k)]}, expected=float(ref[r, k]), observed=float(M[r, k]),
@@ -255,12 +255,12 @@ def extra_checks(ctx, e, A, M):
         import scico.numpy as snp
         y = A(snp.array(x.astype(np.float32)))
         xr = np.asarray(A.inverse(y))
-        if np.abs(xr - x).max() > 1e-3 * max(1.0, np.abs(x).max()):
+        if not (np.abs(xr - x).max() <= 1e-3 * max(1.0, np.abs(x).max())):
             ctx.violation(cls, "inverse(A(x)) differs from x", {**key, "x": x.tolist()}, expected=x.tolist(),
                           observed=xr.tolist(), oracle="documented inverse")
     if cls in ("AngularSpectrumPropagator", "FresnelPropagator", "FraunhoferPropagator"):
         ref = optics_reference(e, A)
-        if ref is not None and np.abs(ref - M).max() > rtol(A) * max(1.0, np.abs(ref).max()):
+        if ref is not None and not (np.abs(ref - M).max() <= rtol(A) * max(1.0, np.abs(ref).max())):
             i, j = np.unravel_index(np.argmax(np.abs(ref - M)), M.shape)
             ctx.violation(cls, "propagator is not F^-1 D F with the documented transfer function on the documented axes",
                           {**key, "entry": [int(i), int(j)]}, expected=str(ref[i, j]), observed=str(M[i, j]),
@@ -276,7 +276,7 @@ def extra_checks(ctx, e, A, M):
             import scico.numpy as snp
             x = L.rand_dyadic(ctx.rng, shp, np.complex64)
             xr = np.asarray(A.inv(A(x)))
-            if xr.shape != tuple(shp) or np.abs(xr - np.asarray(x)).max() > 1e-4 * max(1.0, np.abs(np.asarray(x)).max()):
+            if xr.shape != tuple(shp) or not (np.abs(xr - np.asarray(x)).max() <= 1e-4 * max(1.0, np.abs(np.asarray(x)).max())):
                 ctx.violation("DFT.inv", "inv(F(x)) differs from x although the transform does not crop its input",
                               {**key, "x": repr(L.flat(x).tolist()),
                                "padded": bool(axshape is not None and any(m > shp[a] for a, m in zip(axes, axshape)))},
@@ -284,7 +284,7 @@ def extra_checks(ctx, e, A, M):
                               oracle="documented inverse")
     if cls in ("PolarGradient", "CylindricalGradient", "SphericalGradient"):
         ref = coordgrad_reference(e, A)
-        if ref is not None and np.abs(ref - M).max() > 1e-9 * max(1.0, np.abs(ref).max()):
+        if ref is not None and not (np.abs(ref - M).max() <= 1e-9 * max(1.0, np.abs(ref).max())):
             i, j = np.unravel_index(np.argmax(np.abs(ref - M)), M.shape)
             ctx.violation(cls, "projected gradient differs from the projection of the Cartesian gradient on the documented local axes",
                           {**key, "entry": [int(i), int(j)]}, expected=str(ref[i, j]), observed=str(M[i, j]),
@@ -322,7 +322,60 @@ def optics_reference(e, A):
 
 
 def coordgrad_reference(e, A):
-    return None    # reference for the local coordinate fields: orthonormality is checked instead
+    """Dense matrix of the projection of the Cartesian gradient (forward differences with a zero last row, or
+    np.gradient for cdiff) on the documented local axes, written with the position vector (no angles):
+      polar / cylindrical   radial = (c0, c1)/r,  angular = (-c1, c0)/r,  axial = e_z
+      spherical             radial = c/R,  azimuthal = (c1, -c0, 0)/rho,  polar = (c0 c2, c1 c2, -rho^2)/(R rho)
+    where c = index - centre along (i_x, i_y, i_z) = axes.  On the axis of the coordinate system (r = 0, rho = 0,
+    R = 0) the direction is undefined; the implementation's convention arctan2(0, 0) = 0 is followed there."""
+    c, cls = e.cfg, e.cls
+    shp = tuple(c["shape"])
+    nd = len(shp)
+    nax = 2 if cls == "PolarGradient" else 3
+    axes = tuple(c.get("axes") or range(nax))
+    asz = [shp[a] for a in axes]
+    cen = c.get("center")
+    if cen is None:
+        cen = [(m - 1) / 2 for m in asz]
+        if cls == "CylindricalGradient":
+            cen[-1] = 0.0
+    # coordinate of every array position along x, y(, z)
+    idx = np.indices(shp).astype(np.float64)
+    cc = [idx[axes[k]] - cen[k] for k in range(nax)]
+    with np.errstate(divide="ignore", invalid="ignore"):
+        if cls in ("PolarGradient", "CylindricalGradient"):
+            r = np.hypot(cc[0], cc[1])
+            s_, c_ = np.where(r > 0, cc[0] / r, 0.0), np.where(r > 0, cc[1] / r, 1.0)     # sin, cos of arctan2(c0, c1)
+            z = np.zeros(shp)
+            fields = {"angular": [-c_, s_] + ([z] if nax == 3 else []), "radial": [s_, c_] + ([z] if nax == 3 else []),
+                      "axial": [z, z, np.ones(shp)]}
+            order = [k for k in ("angular", "radial") + (("axial",) if nax == 3 else ()) if c.get(k, True)]
+        else:
+            rho = np.hypot(cc[0], cc[1])
+            R = np.sqrt(rho ** 2 + cc[2] ** 2)
+            ct, st = np.where(rho > 0, cc[0] / rho, 1.0), np.where(rho > 0, cc[1] / rho, 0.0)   # arctan2(c1, c0)
+            sp, cp = np.where(R > 0, rho / R, 0.0), np.where(R > 0, cc[2] / R, 1.0)             # arctan2(rho, c2)
+            fields = {"azimuthal": [st, -ct, np.zeros(shp)], "polar": [cp * ct, cp * st, -sp], "radial": [sp * ct, sp * st, cp]}
+            order = [k for k in ("azimuthal", "polar", "radial") if c.get(k, True)]
+    cdiff = bool(c.get("cdiff", False))
+    n = L.size_of(shp)
+    cols = []
+    for t in range(n):
+        v = np.zeros(n)
+        v[t] = 1.0
+        x = v.reshape(shp)
+        g = []
+        for a in axes:
+            if cdiff:
+                g.append(np.gradient(x, axis=a))
+            else:
+                d = np.zeros_like(x)
+                sl = [slice(None)] * nd
+                sl[a] = slice(0, -1)
+                d[tuple(sl)] = np.diff(x, axis=a)
+                g.append(d)
+        cols.append(np.concatenate([sum(f[m] * g[m] for m in range(nax)).ravel() for f in (fields[k] for k in order)]))
+    return np.stack(cols, axis=1)
 
 
 def run(ctx: Ctx):
@@ -364,7 +417,7 @@ def run(ctx: Ctx):
             if ref is not None:
                 n_ref += 1
                 ctx.count("numpy-ref:" + e.cls, key)
-                if ref.shape != M.shape or np.abs(ref - M).max() > rtol(A) * max(1.0, np.abs(ref).max()):
+                if ref.shape != M.shape or not (np.abs(ref - M).max() <= rtol(A) * max(1.0, np.abs(ref).max())):
                     ctx.violation(e.cls, "operator differs from the documented map (NumPy reference)", key,
                                   expected="reference matrix", observed="implementation matrix differs",
                                   oracle="independent NumPy reference")
